@@ -15,6 +15,10 @@ use std::sync::Mutex;
 use std::time::{Duration, Instant};
 
 fn par_runs<F: Fn(usize) + Sync>(n: usize, width: usize, f: F) {
+    // debugging aid: VERIF_NO_REAL=1 skips the real-process parts
+    if std::env::var("VERIF_NO_REAL").is_ok() {
+        return;
+    }
     if let Some(only) = std::env::var("VERIF_ONLY").ok().and_then(|x| x.parse::<usize>().ok()) {
         f(only);
         return;
